@@ -1,2 +1,14 @@
 import SpoxModel.Props.C17
 /-! `#print axioms` for every property theorem of C17; parsed by ./check. -/
+#print axioms C17.result_dtype_matches
+#print axioms C17.neg_dtype_matches
+#print axioms C17.no_promotion_strict
+#print axioms C17.outside_block_typeerror
+#print axioms C17.logical_matches
+#print axioms C17.int_shape
+#print axioms C17.arith_matches
+#print axioms C17.neg_matches
+#print axioms C17.neg_unsigned_counterexample
+#print axioms C17.floordiv_float_partial
+#print axioms C17.floordiv_bare_div_counterexample
+#print axioms Dispatch.floordiv_correct
